@@ -132,6 +132,7 @@ def qubitsOfInstr : Instruction → List Qubit
   | .circuitDefinition _ _ qvs _ => qvs.map Qubit.variable
   | .measureCalibrationDefinition id _ => [id.qubit]
   | .calibrationDefinition id _ => id.qubits
+  | .frameDefinition f => f.identifier.qubits
   | .gateDefinition g => (match g.specification with
     | .sequence s => s.gates.flatMap (·.qubits)
     | _ => [])
@@ -195,7 +196,9 @@ def handle (inp out : Sexp) : CaseResult :=
           tags := ["s-" ++ stream, "accepted", sizeTag is.length,
               (if changed then "text-changed" else "text-same"),
               (if tokensOk then "tokens-ok" else "TOKENS-NOT-OK"),
-              (if inDomain then "parsed-pred-ok" else "PARSED-PRED-FAILS"),
+              (if inDomain then "parsed-pred-ok" else
+                (if specOnOut out then "PARSED-PRED-FAILS-BUT-SPEC-OK" else "parsed-pred-fails-on-known-finding")),
+              (if numTokInstrs stdFmt t.listing1 then "numtok-ok" else "NUMTOK-FAILS"),
               (if proved then "in-proved-subset" else "outside-proved-subset"),
               (if sameListing t.listing1 is then "listing-same-order" else "listing-reordered"),
               (if t.listing1.length < is.length then "redefinition" else "no-redefinition")] ++
